@@ -934,7 +934,7 @@ def run(ctx):
         if not tables['wrapsAll'] and not lost:
             ctx.divergence('the generated table says some stored containers stay unwrapped but no witness loses a change on the real code', facts['iterUnwrapped'])
     rng = ctx.rng
-    nprog = ctx.scale(260, 10000)
+    nprog = ctx.scale(260, 8000)
     batch = []
     for i in range(nprog):
         attr = rng.choice(['data'] * 8 + ['arr', 'sarr'])
